@@ -587,6 +587,12 @@ impl VisitMut for Rw {
                 }
             }
         }
+        // an immutable `let n = <integer expression>;` makes `n` an integer name for R3_from_i32
+        if let (syn::Pat::Ident(pi), Some(init)) = (&l.pat, &l.init) {
+            if pi.mutability.is_none() && pi.by_ref.is_none() && self.is_int(&init.expr) {
+                self.ints.insert(pi.ident.to_string());
+            }
+        }
         visit_mut::visit_local_mut(self, l);
     }
 
